@@ -19,6 +19,7 @@ pub fn verif_now() -> SystemTime { unimplemented!() }
 //@@ item src/storage/consumer_groups.rs PendingEntry
 //@@ item src/storage/consumer_groups.rs PendingEntryList
 //@@ item src/storage/stream.rs StreamEntry
+//@@ item src/storage/consumer_groups.rs PendingInfo
 /// the ids of a batch of entries, in order
 pub open spec fn ids_of(es: Seq<StreamEntry>) -> Seq<StreamId> { es.map_values(|e: StreamEntry| e.id) }
 /// `consumer.to_string()` on a &str (RXPR site)
@@ -39,6 +40,15 @@ pub fn verif_last<T>(v: &Vec<T>) -> (r: Option<&T>)
 /// `now.duration_since(t).unwrap_or_default().as_millis() as u64` (RXPR site): the clock, unconstrained
 #[verifier::external_body]
 pub fn verif_idle_ms(now: SystemTime, t: SystemTime) -> u64 { unimplemented!() }
+/// `consumers.iter().filter(|(_, c)| c.pending_count > 0).map(|(name, c)| (name.clone(), c.pending_count)).collect()` (RXPR site;
+/// iterator adapters over a HashMap): ASSUMED to be std's meaning — one (name, pending_count) pair per consumer whose count is positive, in the map's iteration order
+#[verifier::external_body]
+pub fn verif_consumer_counts(m: &HashMap<String, Consumer>) -> (r: Vec<(String, usize)>)
+    ensures
+        forall|k: int| 0 <= k < r@.len() ==> m@.contains_key((#[trigger] r@[k]).0) && r@[k].1 == m@[r@[k].0].pending_count && r@[k].1 > 0,
+        forall|c: String| #[trigger] m@.contains_key(c) && m@[c].pending_count > 0 ==> exists|k: int| 0 <= k < r@.len() && r@[k].0 == c,
+        forall|i: int, j: int| 0 <= i < j < r@.len() ==> (#[trigger] r@[i]).0 != (#[trigger] r@[j]).0,
+{ m.iter().filter(|(_, c)| c.pending_count > 0).map(|(name, c)| (name.clone(), c.pending_count)).collect() }
 /// distinct elements that all occur in a duplicate-free list are at most as many as the list is long
 pub proof fn lemma_sub_len(s: Seq<StreamId>, l: Seq<StreamId>)
     requires s.no_duplicates(), l.no_duplicates(), forall|i: int| 0 <= i < s.len() ==> l.contains(#[trigger] s[i]),
@@ -77,16 +87,54 @@ pub proof fn lemma_push_contains(s: Seq<StreamId>, v: StreamId)
     }
 }
 
+/// C16 ("XPENDING's ... ID bounds ... always equal the actual pending set"): the cached bounds are the least and the greatest
+/// pending id, or absent when nothing is pending
+pub open spec fn bounds_ok(ids: Ids, lo: Option<StreamId>, hi: Option<StreamId>) -> bool {
+    &&& match lo { None => forall|x: StreamId| !(#[trigger] ids.contains_key(x)), Some(m) => ids.contains_key(m) && forall|x: StreamId| #[trigger] ids.contains_key(x) ==> m.packed <= x.packed }
+    &&& match hi { None => forall|x: StreamId| !(#[trigger] ids.contains_key(x)), Some(m) => ids.contains_key(m) && forall|x: StreamId| #[trigger] ids.contains_key(x) ==> x.packed <= m.packed }
+}
+/// `map.keys().min().copied()` (RXPR site; iterator adapters): ASSUMED to be std's meaning — the least key by Ord (= by packed value), None on an empty map
+#[verifier::external_body]
+pub fn verif_min_key(m: &BTreeMap<StreamId, PendingEntry>) -> (r: Option<StreamId>)
+    ensures match r { None => forall|x: StreamId| !(#[trigger] m@.contains_key(x)), Some(k) => m@.contains_key(k) && forall|x: StreamId| #[trigger] m@.contains_key(x) ==> k.packed <= x.packed },
+{ m.keys().min().copied() }
+/// `map.keys().max().copied()` (RXPR site): the greatest key, None on an empty map
+#[verifier::external_body]
+pub fn verif_max_key(m: &BTreeMap<StreamId, PendingEntry>) -> (r: Option<StreamId>)
+    ensures match r { None => forall|x: StreamId| !(#[trigger] m@.contains_key(x)), Some(k) => m@.contains_key(k) && forall|x: StreamId| #[trigger] m@.contains_key(x) ==> x.packed <= k.packed },
+{ m.keys().max().copied() }
+
 impl PendingEntryList {
     spec fn ids(self) -> Ids { self.entries_by_id@ }
     spec fn idx(self) -> Idx { self.entries_by_consumer@ }
-    spec fn wf(self) -> bool { pel_wf_m(self.ids(), self.idx()) }
+    spec fn wf(self) -> bool { pel_wf_m(self.ids(), self.idx()) && bounds_ok(self.ids(), self.min_pending_id, self.max_pending_id) }
 
-    /// ASSUMED CONTRACT (update_bounds: `keys().min().copied()` / `.max()` — iterator adapters): touches only the two bound fields
-    #[verifier::external_body]
+//@@ unit pel_update_bounds fn src/storage/consumer_groups.rs PendingEntryList::update_bounds
+//@@   rewrite RXPR "self.entries_by_id.keys().min().copied()" "verif_min_key(&self.entries_by_id)"
+//@@   rewrite RXPR "self.entries_by_id.keys().max().copied()" "verif_max_key(&self.entries_by_id)"
     fn update_bounds(&mut self)
         ensures final(self).entries_by_id == old(self).entries_by_id, final(self).entries_by_consumer == old(self).entries_by_consumer,
-    { unimplemented!() }
+            bounds_ok(final(self).ids(), final(self).min_pending_id, final(self).max_pending_id),
+//@@ body
+//@@ end
+
+//@@ unit pel_len fn src/storage/consumer_groups.rs PendingEntryList::len
+    fn len(&self) -> (r: usize)
+        ensures r == self.ids().dom().len(),
+//@@ body
+//@@ end
+
+//@@ unit pel_min_id fn src/storage/consumer_groups.rs PendingEntryList::min_id
+    fn min_id(&self) -> (r: Option<StreamId>)
+        ensures r == self.min_pending_id,
+//@@ body
+//@@ end
+
+//@@ unit pel_max_id fn src/storage/consumer_groups.rs PendingEntryList::max_id
+    fn max_id(&self) -> (r: Option<StreamId>)
+        ensures r == self.max_pending_id,
+//@@ body
+//@@ end
 
 //@@ unit pel_add_entry fn src/storage/consumer_groups.rs PendingEntryList::add_entry
 //@@   rewrite RXPR "self.entries_by_consumer .entry(consumer) .or_insert_with(Vec::new) .push(id)" "verif_idx_push(&mut self.entries_by_consumer, consumer, id)"
@@ -194,7 +242,7 @@ impl PendingEntryList {
                 Some(e) => old(self).ids().contains_key(*id) && *e == old(self).ids()[*id] && final(self).ids() == old(self).ids().insert(*id, *final(e)),
                 None => !old(self).ids().contains_key(*id) && final(self).ids() == old(self).ids(),
             },
-            final(self).idx() == old(self).idx(),
+            final(self).idx() == old(self).idx(), final(self).min_pending_id == old(self).min_pending_id, final(self).max_pending_id == old(self).max_pending_id,
 //@@ body
 //@@ end
 
@@ -305,6 +353,39 @@ impl ConsumerGroup {
         &&& self.total_pending == self.pending.ids().dom().len()
         &&& self.consumer_count == self.consumers@.dom().len()
     }
+
+//@@ unit group_get_pending_info fn src/storage/consumer_groups.rs ConsumerGroup::get_pending_info
+//@@   rewrite RT "let pending = self.pending.read().unwrap();" "let pending = &self.pending;"
+//@@   rewrite RT "let consumers = self.consumers.read().unwrap();" "let consumers = &self.consumers;"
+//@@   rewrite RXPR "consumers .iter() .filter(|(_, c)| c.pending_count > 0) .map(|(name, c)| (name.clone(), c.pending_count)) .collect()" "verif_consumer_counts(consumers)"
+    fn get_pending_info(&self) -> (r: PendingInfo)
+        requires self.gwf(),
+        ensures
+            // C16 (XPENDING summary): the total, the id bounds and the per-consumer counts are those of the actual pending set
+            r.count == self.pending.ids().dom().len(),
+            bounds_ok(self.pending.ids(), r.min_id, r.max_id),
+            forall|k: int| 0 <= k < r.consumers@.len() ==> (#[trigger] r.consumers@[k]).1 == owned(self.pending.idx(), r.consumers@[k].0) && r.consumers@[k].1 > 0,
+            forall|c: String| owned(self.pending.idx(), c) > 0 ==> exists|k: int| 0 <= k < r.consumers@.len() && (#[trigger] r.consumers@[k]).0 == c,
+            forall|i: int, j: int| 0 <= i < j < r.consumers@.len() ==> (#[trigger] r.consumers@[i]).0 != (#[trigger] r.consumers@[j]).0,
+//@@ body
+//@@ end
+
+//@@ unit group_set_id fn src/storage/consumer_groups.rs ConsumerGroup::set_id
+//@@   params drop "&self" add "&mut self"
+//@@   rewrite RT "let mut last_id = self.last_delivered_id.lock().unwrap();" "let last_id = &mut self.last_delivered_id;"
+    fn set_id(&mut self, id: StreamId)
+        // C16 (XGROUP SETID): exactly the cursor moves
+        ensures final(self).last_delivered_id == id, final(self).pending == old(self).pending, final(self).consumers == old(self).consumers,
+            final(self).consumer_count == old(self).consumer_count, final(self).total_pending == old(self).total_pending,
+//@@ body
+//@@ end
+
+//@@ unit group_get_last_id fn src/storage/consumer_groups.rs ConsumerGroup::get_last_id
+//@@   rewrite RT "let last_id = self.last_delivered_id.lock().unwrap();" "let last_id = &self.last_delivered_id;"
+    fn get_last_id(&self) -> (r: StreamId)
+        ensures r == self.last_delivered_id,
+//@@ body
+//@@ end
 
 //@@ unit group_create_consumer fn src/storage/consumer_groups.rs ConsumerGroup::create_consumer
 //@@   params drop "&self" add "&mut self"
